@@ -473,3 +473,8 @@ class AggDieMode(AggMode):
 
 def modes(tier):
     return [AggMode(), AggStatsMode(), AggDieMode()]
+
+# the plain hub underneath, as translated from the current source (Relay/Tie/PlainHub.lean)
+from tiecommon import TIE_PLAINHUB, TIE_PLAINHUB_NOTE
+THEOREMS = list(THEOREMS) + TIE_PLAINHUB
+RULE = TIE_PLAINHUB_NOTE + RULE
